@@ -20,6 +20,13 @@ def r_range(which):
     return f
 
 
+def r_clamp_y(so, v):
+    L = lib(so); z = v.get('in_z', 0); x = v.get('in_x', 0.0)
+    t = L.verif_tiley(z, x); last = (1 << z) - 1
+    bad = t > last or (x <= -MAXC and t != last) or (x >= MAXC and t != 0)
+    return bad, 'zoom %d mercator y %r -> tile row %d (last row %d)' % (z, x, t, last)
+
+
 def r_nest(which, zoom):
     def f(so, v):
         L = lib(so); x = v.get('in_x', 0.0); fn = L.verif_tilex if which == 'x' else L.verif_tiley
@@ -57,6 +64,8 @@ def cbmc_harnesses(tier):
     hs = [
         CbmcHarness('range_x', 'tile', 'c18_tile.c', 'h_range_x', replay=r_range('x'), desc='for every zoom 0..30 and every double x in the projected square: mercx_to_tilex < 2^zoom', bounds='none (all doubles in [-20037508.34, 20037508.34], zoom symbolic)'),
         CbmcHarness('range_y', 'tile', 'c18_tile.c', 'h_range_y', replay=r_range('y'), desc='same for mercy_to_tiley', bounds='none'),
+        CbmcHarness('clamp_south', 'tile', 'c18_tile.c', 'h_clamp_south', replay=r_clamp_y, desc='for every zoom 0..30 and every mercator y south of the projected square that a valid location projects to -- [-1.4e8, -20037508.34] and -infinity for the south pole itself: mercy_to_tiley is the last row (tile numbers never decrease when moving south, the pole included)', bounds='none (zoom symbolic; y in [-1.4e8, -MAXC] or -inf)'),
+        CbmcHarness('clamp_north', 'tile', 'c18_tile.c', 'h_clamp_north', replay=r_clamp_y, desc='same north of the square, up to the projection of the north pole (2.38e8): row 0', bounds='none (zoom symbolic; y in [MAXC, 2.4e8])'),
         CbmcHarness('boundaries', 'tile', 'c18_tile.c', 'h_boundary', replay=r_boundary, desc='exact values at -180 / +180 degrees, the poles of the projection and at 0, for every zoom; Tile constructor agrees', bounds='none (zoom symbolic)'),
     ]
     nz = (0, 1, 7, 16, 22, 29) if q else range(0, 30)
